@@ -14,3 +14,25 @@ Lemma key_tags_are_model : x_key_tags = [plist_key_tag; plist_key_tag].
 Proof. reflexivity. Qed.
 Lemma lib_wrapper_is_dict : x_lib_wrap = ["dict"; "dict"]%string.
 Proof. reflexivity. Qed.
+
+(** The serde schema (per field: XML key, type, skip_serializing_if predicate, default, with module;
+    per struct: rename, rename_all, deny_unknown_fields, container default; enum variants and default;
+    bodies of the crate-local predicates) regenerated from the source is the model's table, and the
+    flag checks hold ON THE REGENERATED TABLE: no field whose omission the reader cannot undo, XML keys
+    distinct per struct, flat attribute views round-trip, and the hypotheses the flags leave on
+    values are exactly the ones [ds_wf] states. *)
+Require Import Norad.Model.DsSchema.
+Lemma schema_is_model : x_schema = ds_schema.
+Proof. reflexivity. Qed.
+Lemma enums_are_model : x_enums = ds_enums.
+Proof. reflexivity. Qed.
+Lemma helpers_are_model : x_helpers = ds_helpers.
+Proof. reflexivity. Qed.
+Lemma wrapper_helper_is_model : x_wrapper_helper = ds_wrapper_helper.
+Proof. reflexivity. Qed.
+Lemma extracted_schema_rt_ok : ds_schema_rt_ok x_helpers x_schema = true.
+Proof. vm_compute. reflexivity. Qed.
+Lemma extracted_hyps_are_ds_wf : ds_hyps x_helpers x_schema = ds_expected_hyps.
+Proof. vm_compute. reflexivity. Qed.
+Lemma extracted_attr_views_ok : forallb (fun st => aflat_ok (attr_view st)) x_schema = true.
+Proof. vm_compute. reflexivity. Qed.
